@@ -1,14 +1,17 @@
 import Driver.Common
+import Parsley.Model.Pipeline
 namespace Driver.C01
 open Parsley Driver
 
-/-! Adversarial document generator for C01.  Cases:
+/-! Adversarial document generator, end-to-end model and oracle for C01.  Cases:
       `doc <hex>`              explicit file contents
-      `prefix <file> <n>`      first n bytes of /repo/tests/test_files/<file>
-      `mut <file> <seed> <k>`  k pseudo-random byte edits of that file (done in the harness)
+    (prefixes and multi-edit mutations of the repository's sample PDFs are produced by the native
+    generator of harness/src/bin/c01.rs, which can read them, as explicit `doc` lines too).
     The implementation side runs the REAL `pdf_printer` binary on the file in a subprocess and
-    reports `completed` (exit 0), `rejected` (exit 1) or what else happened (panic exit code,
-    signal, timeout).  The only acceptable outcomes are the first two. -/
+    reports `terminates-normally completed` (exit 0), `terminates-normally rejected` (exit 1) or what
+    else happened (`abnormal` + panic exit code, signal, timeout).
+    model : `Pipeline.run` (Model/Pipeline.lean) on the bytes; the first two words must agree with the binary.
+    judge : the statement itself - the only acceptable outcomes are the first two. -/
 
 def bs (s : String) : Bytes := s.toUTF8.toList
 
@@ -211,6 +214,32 @@ def predictorParms : List String :=
    "/Predictor 10 /Columns 1 /BitsPerComponent 0", "/Predictor -12", "/Predictor 99999999999999999999",
    "/Predictor 12 /Columns 5 /EarlyChange 7", "/Predictor (x)", "/Columns [1]"]
 
+def contentFamily : List String :=
+  ["", " ", "% only a comment", "BX ) EX", "BX > EX", "BX ] EX", "BX { EX", "BX } EX", "BX foo EX", "BX foo", "BX BX foo EX bar EX",
+   "BX EX foo", "EX", "BX EX EX", "BX (a) ) EX", "BX << EX", "BX [ EX", "BX <41 EX", "BX /#00 EX", "q BX ) EX Q",
+   "BT", "BT ET ET", "BT BT ET", "BT (a) Tj", "BT (a) Tj ET", "BT TJ ET", "BT [(a)] [(b)] TJ ET", "BT [(a) [(b)]] TJ ET",
+   "BT (a) (b) (c) \" ET", "BT 1 2 (c) \" ET", "BT (a) ' ET", "BT q ET", "q Q", "Q", "1 2 3", "(a)", "1 2 m 3 4 l S", "1 2 m 3 4 l",
+   "1 2 m W n", "1 2 m W 3 4 l", "0 0 1 1 re W* n f", "BI /W 1 ID abc EI", "BI ID EI", "BI /W 1 ID", "EI", "ID",
+   "/GS1 gs /F1 12 Tf", "BT /F1 12 Tf 1 0 0 1 0 0 Tm (x) Tj T* ET", "<< /A 1 >> BDC EMC", "/OC /MC0 BDC EMC", "BMC", "sh", "/Im1 Do",
+   "1 0 R", "BT 1 0 R Tj ET", "true false null m", "[1 2] 0 d", "[[[[[[[[[[[[[[[[[[[[[[[[[[[[[[[[[[[[[[[[[[[[[[[[[[[[[[[[[[1", "((((", "<", "<<", "/", "#",
+   "99999999999999999999 w", "1.5.5 w", "-", "+1 w", ".", "..", "BT (\\) Tj ET", "BT <4> Tj ET", "BT <zz> Tj ET", "\x00\x00", "f*", "b*", "B*", "'", "\""]
+
+def contentTokens : List String :=
+  ["BT", "ET", "BX", "EX", "q", "Q", "(a)", "[(a) -1 (b)]", "Tj", "TJ", "'", "\"", "T*", "1", "2.5", "Td", "m", "l", "re", "S", "n", "W", "f",
+   "BI", "ID", "EI", "/N", "Tf", ")", "]", ">", "{", "foo", "<41>", "<<", ">>", "[", "Do", "cm", "% c\n"]
+
+def fontFamily : List String :=
+  ["<< /Type /Font /Subtype /Type1 /BaseFont /Helvetica >>",
+   "<< /Type /Font /Subtype /Type1 /BaseFont /NotStandard >>",
+   "<< /Type /Font /Subtype /Type1 /BaseFont /NotStandard /FontDescriptor 6 0 R >>",
+   "<< /Type /Font /Subtype /TrueType /BaseFont /Helvetica /FontDescriptor 6 0 R >>",
+   "<< /Type /Font /Subtype /TrueType /BaseFont /X /FontDescriptor << /Type /FontDescriptor /FontName /X /Flags 4 /FontFile2 7 0 R >> >>",
+   "<< /Type /Font /Subtype /Type3 /BaseFont /X /FontDescriptor << /FontName /X /Flags 4 /FontFile3 (notref) >> >>",
+   "<< /Type /Font /Subtype /Type1 /BaseFont /X /FontDescriptor 99 0 R >>",
+   "<< /Type /Font /Subtype /Type1 /BaseFont /X /FontDescriptor 7 0 R >>",
+   "<< /Type /Font /Subtype /Type1 >>", "<< /Type /Font /BaseFont /X >>", "<< /Type /Font /Subtype /Type1 /BaseFont /X /Encoding 6 0 R >>",
+   "<< /Type /Font /Subtype /Type1 /BaseFont /X /Encoding /#ff#fe >>", "(not a dictionary)", "5 0 R", "[ ]"]
+
 def gen (seed n : Nat) (tier : String) (emit : String → IO Unit) : IO Unit := do
   let doc := fun (b : Bytes) => emit s!"doc {hexOfBytes b}"
   -- fixed scenarios
@@ -267,16 +296,28 @@ def gen (seed n : Nat) (tier : String) (emit : String → IO Unit) : IO Unit := 
     for dct in [false, true] do
       doc (baseDoc textContent [] none (bs "[3 0 R]") (bs "/X " ++ nested nn dct) [] [] [])
       doc (baseDoc (bs "BT " ++ nested nn dct ++ bs " TJ ET") [] none (bs "[3 0 R]") [] [] [] [])
-  -- repository sample files: every prefix (thorough) / a stride of prefixes (quick)
-  let files := [("minimal.pdf", 739), ("minimal_leading_garbage.pdf", 760), ("Rosenthol_example.pdf", 661),
-                ("Rosenthol_example_2pages.pdf", 914)]
-  let stride := if tier == "thorough" then 1 else 23
-  for (f, len) in files do
-    let mut k := 0
-    while k ≤ len do
-      emit s!"prefix {f} {k}"
-      k := k + stride
-    emit s!"prefix {f} {len}"
+  -- content streams: compatibility sections with stray delimiters / unknown operators / unbalanced nesting,
+  -- operands without operator, text objects left open, inline images, every state of Figure 9
+  for c in contentFamily do
+    doc (baseDoc (bs c) [] none (bs "[3 0 R]") [] [] [] [])
+  doc (baseDoc (bs "BT (a) Tj") [] none (bs "[3 0 R]") (bs "/Contents [4 0 R 8 0 R]") [] []
+        [streamObj 8 [] (bs "5") (bs " ET q")])
+  doc (baseDoc (zlibStored (bs "BX ) EX")) (bs "/Filter /FlateDecode") none (bs "[3 0 R]") [] [] [] [])
+  -- fonts: embedded / not embedded / standard / descriptor variants
+  for f in fontFamily do
+    doc (assemble hdr
+      [obj 1 (bs "<< /Type /Catalog /Pages 2 0 R >>"),
+       obj 2 (bs "<< /Type /Pages /Kids [3 0 R] /Count 1 >>"),
+       obj 3 (bs "<< /Type /Page /Parent 2 0 R /MediaBox [0 0 612 792] /Contents 4 0 R /Resources << /Font << /F1 5 0 R >> >> >>"),
+       streamObj 4 [] (natStr textContent.length) textContent,
+       obj 5 (bs f),
+       obj 6 (bs "<< /Type /FontDescriptor /FontName /X /Flags 32 >>"),
+       streamObj 7 [] (bs "3") (bs "abc")] [] (bs "1 0 R"))
+  -- encrypted documents (dump_root skips decoding), roots that are not catalogs
+  doc (baseDoc (zlibStored textContent) (bs "/Filter /FlateDecode") none (bs "[3 0 R]") [] [] [] [] (bs "/Encrypt << /Filter /Standard >>"))
+  doc (baseDoc (bs "xx") (bs "/Filter /FlateDecode") none (bs "[3 0 R]") [] [] [] [] (bs "/Encrypt 7 0 R"))
+  doc (baseDoc textContent [] none (bs "[3 0 R]") [] [] (bs "/PageLabels 42") [])
+  doc (baseDoc textContent [] none (bs "[3 0 R]") [] [] (bs "/Names << /Dests (foo) >>") [])
   -- random part: number mutations, truncations, byte edits of generated documents; byte edits of the samples
   let bases : List Bytes := [plain, xrefStreamDoc none [] [] none none false, xrefStreamDoc none [] [] none none true,
     updatedDoc none none,
@@ -302,15 +343,27 @@ def gen (seed n : Nat) (tier : String) (emit : String → IO Unit) : IO Unit := 
       r := r4
       doc (b.take k ++ [x] ++ b.drop (k + 1))
     | _ =>
-      let ((f, _), r3) := r2.pick files
-      let (sd, r4) := r3.nat 1000000
-      let (k, r5) := r4.nat 4
-      r := r5
-      emit s!"mut {f} {sd} {k + 1}"
+      -- replace the content stream of the base document by a random walk over content tokens
+      let (k, r3) := r2.nat 8
+      let (c, r4) := (List.range (k + 1)).foldl (fun (acc : Bytes × Rng) _ =>
+        let (t, r) := acc.2.pick contentTokens
+        (acc.1 ++ bs t ++ bs " ", r)) (([] : Bytes), r3)
+      r := r4
+      doc (baseDoc c [] none (bs "[3 0 R]") [] [] [] [])
 
-/-- The pipeline model at this level is the statement itself: the only outcomes are
-    completion and located rejection. -/
-def model (_line : String) : String := "terminates-normally"
+/-- the end-to-end model (Model/Pipeline.lean) on the bytes of the case -/
+def showOutcome : Pipeline.Outcome → String
+  | .completed => "terminates-normally completed"
+  | .rejected => "terminates-normally rejected"
+  | .panic s => "abnormal panic model-site=" ++ s.replace " " "_"
+
+def model (line : String) : String :=
+  match words line with
+  | ["doc", hex] =>
+    match bytesOfHex hex with
+    | some b => showOutcome (Pipeline.run b)
+    | none => "bad-case"
+  | _ => "bad-case"
 
 def judge (_case impl : String) : String :=
   let w := (words impl)
@@ -320,12 +373,10 @@ def judge (_case impl : String) : String :=
   | "abnormal" :: k :: _ => s!"bad {k} {impl}"
   | _ => if impl.startsWith "crash" || impl == "hang" then s!"bad harness-{impl}" else s!"bad malformed {impl}"
 
-/-- non-trivial: a document of at least 64 bytes or a mutation of a sample file -/
+/-- non-trivial: a document of at least 64 bytes -/
 def nontrivial (line : String) : Bool :=
   match words line with
   | ["doc", hex] => hex.length ≥ 128
-  | "prefix" :: _ :: n :: _ => n.toNat! ≥ 64
-  | "mut" :: _ => true
   | _ => false
 
 def driver : PropDriver := { gen, model, judge, nontrivial }
